@@ -58,7 +58,7 @@ def discover():
     return out
 
 
-def recipe(ctx, name, f, net, nl, el, sym):
+def recipe(ctx, name, f, net, nl, el, sym, flags=False):
     """kwargs for the parameters without default; None if no recipe."""
     sig = inspect.signature(f)
     kw = {}
@@ -105,6 +105,8 @@ def recipe(ctx, name, f, net, nl, el, sym):
             kw[pname] = [n for i, n in enumerate(nl) if ctx.flag(f"pick{i}")]
         elif pname == "index":
             kw[pname] = True
+        elif isinstance(par.default, bool) and flags:
+            kw[pname] = ctx.flag("flag_" + pname)  # both values of every boolean option
         elif need:
             return None
     return kw
@@ -118,7 +120,7 @@ def mutate_result(r, depth=0):
             r._net_attr["__vx__"] = 1
             for a in list(r._node_attr.values())[:1] + list(r._edge_attr.values())[:1]:
                 a["__vx__"] = 1
-            for s in list(r._node.values())[:1] + list(r._edge.values())[:1]:
+            for s in list(r._node.values()) + list(r._edge.values()):
                 if isinstance(s, set):
                     s.add("__vx__")
                 elif isinstance(s, dict):
@@ -204,7 +206,7 @@ def func(ctx, p):
             if inspect.isclass(f):
                 kw = {"__vx_attr__": 1}
             else:
-                kw = recipe(ctx, name, f, net, nl, el, p["mode"] == "sym")
+                kw = recipe(ctx, name, f, net, nl, el, p["mode"] == "sym", flags=p.get("flags", False))
             if kw is None:
                 ctx.info["outcome"] = "no recipe"
                 return
@@ -301,9 +303,12 @@ def spec(tier, seed):
             if p0 in ("S", "SC") and cls != "S":
                 continue
             heavy = name.startswith("draw") or name.endswith("_layout")
-            for s in (sh[cls][:2] if heavy and tier == "quick" else sh[cls]):
+            for k, s in enumerate(sh[cls][:2] if heavy and tier == "quick" else sh[cls]):
                 for mode in ("sym", "conc"):
                     units.append(("C08.func", {"f": name, "cls": cls, "shape": s, "mode": mode, "kind": name}))
+                if k == 1 and not heavy and not inspect.isclass(f):
+                    # every combination of the boolean options, on one shape per class
+                    units.append(("C08.func", {"f": name, "cls": cls, "shape": s, "mode": "conc", "kind": name, "flags": True}))
     for m in METHODS:
         for cls in "HDS":
             if m in ONLY and cls not in ONLY[m]:
